@@ -855,3 +855,36 @@ Proof.
   split; [vm_compute; reflexivity|]. split; [vm_compute; reflexivity|].
   eexists. split; [vm_compute; reflexivity|]. vm_compute. reflexivity.
 Qed.
+
+(* the same for the -lazy writer (makeSingleTrackSegmentsLazyWrite: metadata-only samples, Encode of the mdat header,
+   copyMediaData behind it; one chunk-offset box): every written file of the reference track reads back with
+   sample_is_non_sync_sample = 0 on its first sample *)
+From V.c11 Require Import C11SyncLazyProofs.
+Theorem C11_segmenter_lazy_segments_start_sync :
+  forall (f : pfile) (trs : list itrack) (t : itrack) d syncTs sps ivs stss,
+  Forall (fun t => C09Spec.consistent (snd t) = true) trs -> In t trs -> data_ok f (snd t) = true ->
+  one_offset_box (snd t) = true ->
+  first_video (map itrack_of trs) = Some (itrack_of t) ->
+  C09Model.t_stss (snd t) = Some stss -> In 1 stss ->
+  get_segment_starts (map itrack_of trs) d = Ok (syncTs, sps) -> sps <> [] ->
+  get_segment_intervals syncTs sps (itrack_of t) = Ok ivs ->
+  nonzero_dur_syncs (itrack_of t) sps = true ->
+  forall opt T pos0 (tx : C05Model.trex),
+  tx_track tx = T -> pos0 < 4611686018427387904 -> forallb (seg_small (snd t)) ivs = true ->
+  exists outs res, seg_track_lazy opt f (snd t) T ivs = Ok outs /\
+                   read_all (fun p => read_back tx pos0 (snd p) (fst p)) outs = Ok res /\
+                   map Some (concat res) = expansion f (snd t) /\
+                   Forall starts_sync res.
+Proof. exact ref_segments_start_sync_lazy. Qed.
+Print Assumptions C11_segmenter_lazy_segments_start_sync.
+
+Example C11_segmenter_lazy_segments_start_sync_example :
+  one_offset_box ex_e2e_tb = true /\
+  exists outs, seg_track_lazy false (mkPfile (pf_bytes ex_e2e_file) 8 322 true) ex_e2e_tb 1 [(1, 4); (5, 7)] = Ok outs /\
+    option_map (map (map (fun x => N.testbit (s_flags (fs_s x)) 16)))
+      (match read_all (fun p => read_back (C05Model.mkTrex 1 0 0 0) 24 (snd p) (fst p)) outs with Ok o => Some o | _ => None end)
+    = Some [[false; true; true; true]; [false; true; true]].
+Proof.
+  split; [vm_compute; reflexivity|].
+  eexists. split; [vm_compute; reflexivity|]. vm_compute. reflexivity.
+Qed.
